@@ -419,11 +419,10 @@ Definition try_from_builder (bd : builder) : res board :=
   let b4 := set_castling_rights b3 Black (bd_br bd) in
   let b5 := with_clocks b4 (bd_half bd) (bd_full bd) in
   b6 <- update_pins_and_checks b5 ;;
-  b7 <- update_terminal_status b6 ;;
-  h <- calc_hash b7 ;;
-  let b8 := with_hash b7 h in
-  v <- validate b8 ;;
-  match v with None => Ok b8 | Some e => Err e end.
+  h <- calc_hash b6 ;;
+  let b7 := with_hash b6 h in
+  v <- validate b7 ;;
+  match v with None => update_terminal_status b7 | Some e => Err e end.
 
 (* BoardBuilder::from(ChessBoard) *)
 Definition builder_of_board b : res builder :=
